@@ -5,6 +5,7 @@ import json
 import os
 import shutil
 import subprocess
+import tempfile
 import time
 
 VERIF = os.path.dirname(os.path.dirname(os.path.abspath(__file__)))
@@ -67,6 +68,12 @@ def build_duck(repo):
 _DUCK = {}
 
 
+def _scratch_cwd():
+    base = os.path.join(os.path.dirname(os.path.dirname(os.path.abspath(__file__))), 'build', 'finder-cwd')
+    os.makedirs(base, exist_ok=True)
+    return tempfile.mkdtemp(dir=base)
+
+
 def _run(binp, args, timeout):
     env = dict(os.environ)
     if args and args[0] == 'C20':
@@ -76,7 +83,14 @@ def _run(binp, args, timeout):
         if _DUCK[repo]:
             env['VERIF_DUCK_BIN'] = _DUCK[repo]
     try:
-        p = subprocess.run([binp] + args, env=env, stdout=subprocess.PIPE, stderr=subprocess.PIPE, text=True, timeout=timeout)
+        # the real code under test may create files named by its arguments: every finder process runs in a scratch
+        # directory of its own under build/, removed afterwards
+        args = [os.path.abspath(a) if os.path.exists(a) else a for a in args]
+        cwd = _scratch_cwd()
+        try:
+            p = subprocess.run([binp] + args, env=env, cwd=cwd, stdout=subprocess.PIPE, stderr=subprocess.PIPE, text=True, timeout=timeout)
+        finally:
+            shutil.rmtree(cwd, ignore_errors=True)
     except subprocess.TimeoutExpired:
         return dict(found=False, error='finder timeout (possible hang in real code)', hang=True)
     # the finder's answer is the LAST line that is a JSON object with a `found` / `fails` key (the real code under
@@ -131,12 +145,15 @@ def _last_started_input(binp, pid, seed, budget):
     if _DUCK.get(_DUCK.get('repo', '/repo')):
         env['VERIF_DUCK_BIN'] = _DUCK[_DUCK.get('repo', '/repo')]
     try:
-        p = subprocess.Popen([binp, pid, 'find', str(seed), str(budget)] + known_classes(pid), env=env, stdout=subprocess.DEVNULL, stderr=subprocess.PIPE, text=True)
+        cwd = _scratch_cwd()
+        p = subprocess.Popen([binp, pid, 'find', str(seed), str(budget)] + known_classes(pid), env=env, cwd=cwd, stdout=subprocess.DEVNULL, stderr=subprocess.PIPE, text=True)
         try:
             _, err = p.communicate(timeout=budget + 30)
         except subprocess.TimeoutExpired:
             p.kill()
             _, err = p.communicate()
+        finally:
+            shutil.rmtree(cwd, ignore_errors=True)
         lines = [l for l in (err or '').strip().split('\n') if l.startswith('{')]
         return json.loads(lines[-1]) if lines else None
     except Exception:
